@@ -312,9 +312,48 @@ pub fn shapes() -> Vec<ProgCase> {
         let body: String = (0..k).map(|i| format!("push.{} mem_store.{} ", i + 1, i * 3)).collect();
         out.push(mk(format!("memory_dominated/{k}"), format!("begin {body} end"), vec![], vec!["stack", "memory", "range"]));
     }
+    out.extend(regime_search());
     for k in [7usize, 8, 15, 16, 17] {
         let body: String = (0..k).map(|i| format!("push.{} push.{} u32and drop ", 4000000000u64 - i as u64, 123456789 + i)).collect();
         out.push(mk(format!("bitwise_dominated/{k}"), format!("begin {body} end"), vec![], vec!["stack", "bitwise"]));
+    }
+    out
+}
+
+/// Trace-regime programs found by a deterministic search: hasher rows in multiples of 8 plus M memory
+/// rows, chosen so that the chiplet rows (without the padding row) are exactly 2^j-2, 2^j-1, 2^j, 2^j+1
+/// for j = 6, 7, 8 while the chiplets dominate the trace length and the LAST chiplet row is a memory
+/// row (no kernel). The search runs the real VM only to read the component lengths.
+pub fn regime_search() -> Vec<ProgCase> {
+    let mut out = vec![];
+    let mut found = std::collections::BTreeSet::new();
+    for h in 0..36usize {
+        for m in 0..20usize {
+            let src = format!("begin padw padw padw repeat.{} hperm end repeat.{} dup.12 mem_load drop end dropw dropw dropw end", h.max(1), m.max(1));
+            let Ok(program) = crate::common::assembler().compile(&src) else { continue };
+            let Ok(Ok(t)) = crate::common::exec_trace(&program, &[], processor::AdviceInputs::default(), processor::ExecutionOptions::default()) else { continue };
+            let s = t.trace_len_summary();
+            let c = s.chiplets_trace_len();
+            let rows = c.hash_chiplet_len() + c.bitwise_chiplet_len() + c.memory_chiplet_len() + c.kernel_rom_len();
+            if rows < s.main_trace_len() || rows < s.range_trace_len() || c.memory_chiplet_len() == 0 {
+                continue;
+            }
+            for j in [6u32, 7, 8] {
+                for d in [-2i64, -1, 0, 1] {
+                    if rows as i64 == (1i64 << j) + d && found.insert((j, d)) {
+                        out.push(ProgCase {
+                            name: format!("regime_chiplets/2^{j}{d:+}/h{h}m{m}"),
+                            src: src.clone(),
+                            kernel: None,
+                            stack: vec![],
+                            advice: vec![],
+                            merkle_leaves: vec![],
+                            tags: vec!["stack", "hasher", "memory", "range"],
+                        });
+                    }
+                }
+            }
+        }
     }
     out
 }
